@@ -230,10 +230,47 @@ def run_conv(s, tier="quick", seed=0):
     return res
 
 
+def run_lift_standin(tier="quick", seed=0):
+    """[bounded] accuracy of the lifts: SO2::lift_so3 / SE2::lift_se3 natively on yaw angles 1e-12 .. pi (both signs) against the exact
+    lift of the element the input coefficients represent (60-digit atan2 / sin / cos): within (n+1) * 1e-13 relative with n = 1"""
+    import math
+    import mpmath
+    from .common import write_replay
+    res = Results(PROP)
+    xt = guarded(res, PROP + "/conv<d>/extract", lambda: conv_extract("d"))
+    if xt is None:
+        return res
+    mpmath.mp.dps = 60
+    rng = random.Random(seed + 151)
+    yaws = [sg * 10 ** e for e in (-12, -10, -9, -8, -7, -6, -5, -4, -3, -2, -1) for sg in (1, -1)] + [1.0, -2.5, 3.1, -3.14159, math.pi - 1e-9]
+    yaws += [rng.choice([-1, 1]) * 10 ** rng.uniform(-12, 0.49) for _ in range(40 if tier == "quick" else 400)]
+    for fn, nin, nout, off in (("d_so2_lift_so3", 2, 4, 0), ("d_se2_lift_se3", 4, 7, 2)):
+        worst, wit = 0.0, None
+        for y in yaws:
+            a = ([0.3, -0.7] if off else []) + [math.sin(y), math.cos(y)]
+            env = {"a%d" % i: v for i, v in enumerate(a)}
+            out = xt.call_native(fn, [("a", nin, "d"), ("o", nout, "d")], env, "so-gcc")["o"]
+            ye = mpmath.atan2(mpmath.mpf(a[off]), mpmath.mpf(a[off + 1]))
+            want = [mpmath.mpf(0), mpmath.mpf(0), mpmath.sin(ye / 2), mpmath.cos(ye / 2)]
+            got = out[-4:]
+            # the vector part (size |yaw|/2) relative to itself -- this is what carries the angle --, the scalar part absolutely
+            evec = max(abs(mpmath.mpf(g_) - w_) for g_, w_ in zip(got[:3], want[:3]))
+            rel = float(max(evec / max(abs(want[2]), mpmath.mpf(10) ** -300), abs(mpmath.mpf(got[3]) - want[3])))
+            if rel > worst:
+                worst, wit = rel, dict(yaw=y, input=a, output=out, expected=[float(w_) for w_ in want], rel_err=rel)
+        ok = worst <= 2e-13
+        oid = "%s/standin/%s/accuracy-2e-13" % (PROP, fn[2:])
+        res.add(oid, "bounded-ok" if ok else "bounded-fail", "bounded-standin", 0.0, "max relative error of the rotation part %.3g over %d yaw angles" % (worst, len(yaws)),
+                witness=None if ok else wit, extra=None if ok else dict(confirmed=True, replay=write_replay(oid, dict(obligation=oid, witness=wit, function=fn,
+                reason="the lifted element differs from the exact lift by more than (n+1)*1e-13 relative (n = 1)"))))
+    return res
+
+
 def tasks(tier, seed=0):
     t = [("c15", "run_group", (g, s), dict(tier=tier, seed=seed, canary=True)) for g, s in group_tasks(tier)]
     for s in (["d"] if tier == "quick" else ["d", "f"]):
         t.append(("c15", "run_conv", (s,), dict(tier=tier, seed=seed)))
+    t.append(("c15", "run_lift_standin", (), dict(tier=tier, seed=seed)))
     return t
 
 
@@ -241,6 +278,7 @@ def prebuild(tier):
     jobs = [("grp_" + G_.BY_NAME[g].prefix(s), G_.BY_NAME[g].tu(s), "ll", (), ()) for g, s in group_tasks(tier)]
     for s in (["d"] if tier == "quick" else ["d", "f"]):
         jobs.append(("conv_" + s, conv_tu(s), "ll", (), ()))
+    jobs.append(("conv_d", conv_tu("d"), "so-gcc", (), ()))
     return jobs
 
 
